@@ -8,8 +8,9 @@
 open Conv
 
 let split c s = Stdlib.String.split_on_char c s
+let byte_n = Stdlib.Array.init 256 n_of_int
 let gen_value seed len =
-  Stdlib.List.init len (fun i -> n_of_int ((seed + i * 13 + (i lsr 8)) land 255))
+  Stdlib.List.init len (fun i -> byte_n.((seed + i * 13 + (i lsr 8)) land 255))
 (* CRC-32 (IEEE, as zlib.crc32) of the bytes *)
 let crc_table = Stdlib.Array.init 256 (fun n ->
   let c = ref n in
@@ -140,6 +141,9 @@ let () =
     exh (n_of_decimal lim) (n_of_decimal tl) (ios num) (ios den)
       (Stdlib.Array.of_list (Stdlib.List.map ios (split ',' sizes))) (ios l)
       (if prefix = "-" then [] else Stdlib.List.map ios (split ',' prefix)) | _ -> "BADARGS");
+  register "c16nums" (function [lim; tl; ops] ->
+    Stdlib.String.concat "," (Stdlib.List.map decimal_of_n
+      (Cache.render_run (n_of_decimal lim) (n_of_decimal tl) (parse_list parse_op ops))) | _ -> "BADARGS");
   register "c16run" (function [lim; tl; ops] ->
     run_case (n_of_decimal lim) (n_of_decimal tl) (parse_list parse_op ops) | _ -> "BADARGS");
   register "c16req" (function [lim; tl; qs] ->
